@@ -323,6 +323,8 @@ class Outcome:
     def describe(self):
         if self.kind == "return":
             return "return"
+        if self.kind == "loopbound":
+            return "does not terminate within the iteration / line-event budget"
         return "raise %s(%s)" % (type(self.exc).__name__, _safe_str(self.exc))
 
 
@@ -411,15 +413,27 @@ def run_native(unit, case, inputs_json):
     import contextlib
     import io
 
+    guard = None
+    if getattr(unit, "frame_check", False):
+        from .state import StateGuard
+
+        guard = StateGuard()
+        guard.snapshot()
     with contextlib.redirect_stdout(io.StringIO()):  # the real code may print (print_data, print_cdb)
         try:
             val = unit.run(X, case, a)
             out = Outcome("return", val)
+        except V.LoopBound:
+            out = Outcome("loopbound")
         except EngineSignal:
             raise
         except BaseException as ex:
             out = outcome_of_exception(ex)
         clauses = [(p, n, _as_bool(c)) for p, n, c in unit.ensures(case, a, out, X)]
+    if guard is not None:
+        diffs = guard.diff()
+        guard.restore(diffs)
+        clauses.append(("C09", "frame:net-effect-on-package-state-is-empty%s" % (" (" + "; ".join("%s.%s %s" % d for d in diffs[:4]) + ")" if diffs else ""), not diffs))
     for n, c in [(t[1], t[2]) for t in X.trace if t[0] == "obligation"]:
         clauses.append(("*", n, _as_bool(c)))
     return out, clauses, a
